@@ -236,3 +236,125 @@ Example C09_ex_unit_weights_surface_corner :
   project Qops (surface_point Qops 4 1 1 Uu Uv 3 2 (to_rational Qops P) 1%Q 1%Q) = surface_point Qops 3 1 1 Uu Uv 3 2 P 1%Q 1%Q /\
   surface_point Qops 3 1 1 Uu Uv 3 2 P 1%Q 1%Q = [2;1;3]%Q.
 Proof. vm_compute. split; reflexivity. Qed.
+
+(* ====================== TRANSLATOR TIE (Proofs/GenTie*.v) ======================
+   coq/Gen/*.v is the Gallina rendering of the Python source produced by harness/pytrans.py; every run of ./check regenerates it
+   from /repo and compares it function by function with the committed text (evidence: translator_tie).  The theorems below say
+   that the hand-written model (the subject of the theorems above) computes, for ALL inputs satisfying the stated
+   well-formedness, exactly what the translated source computes.  This block stays LAST in the file: its imports shadow
+   model names. *)
+From Coq Require Import List QArith Reals Qreals Lia Lra Arith Bool ZArith.
+From NV Require Import Scalar.Ops Model.Common Model.Basis Model.Knots Model.KnotIns Model.KnotRem Model.LinAlg Model.Degree
+  Gen.Prelude Gen.LinalgInternal Gen.Linalg Gen.Knotvector Gen.Helpers
+  Proofs.GenTieSums Proofs.GenTieLinAlg Proofs.GenTieSubst Proofs.GenTieLU Proofs.GenTieLUSolve Proofs.GenTieKnotRem Proofs.GenTieDegree
+  Proofs.GenTieLib Proofs.GenTieKnots Proofs.GenTieSpan Proofs.GenTieBasis Proofs.GenTieBasisOne
+  Proofs.GenTieDersOne Proofs.GenTieDersLib Proofs.GenTieDers Proofs.GenTieKnotIns.
+Local Open Scope nat_scope.
+From NV Require Import Gen.PreludeExt Gen.LinalgMat Proofs.GenTieMat Proofs.GenTieMatSolve Proofs.GenTieBinom.
+From NV Require Import Gen.PreludeExt Gen.HelpersB Proofs.GenTieKnotRemove.
+From NV Require Import Gen.HelpersB Proofs.GenTieElev.
+From NV Require Import Model.Geom2D Model.Voxel Gen.PreludeExt Gen.LinalgGeom Gen.Voxelize Proofs.GenTieGeom Proofs.GenTieVoxel
+  Proofs.GenTieHull.
+From NV Require Import Model.Hull Gen.Utilities Proofs.GenTieBBox.
+From NV Require Import Model.Fit Gen.Fitting Proofs.GenTieFit.
+From NV Require Import Model.Derivs Proofs.GenTieDerivCpts.
+From NV Require Import Proofs.GenTieArr4 Proofs.GenTieDerivSurf.
+From NV Require Import Model.KnotRefine Proofs.GenTieRefine.
+From NV Require Import Model.Eval Gen.Evaluators Proofs.GenTieEvalLib Proofs.GenTieEvalCurve Proofs.GenTieEvalSurf Proofs.GenTieEvalVol.
+From NV Require Import Model.Derivs Gen.HelpersC Proofs.GenTieBinom Proofs.GenTieBasisAll Proofs.GenTieEvalDerivCurve Proofs.GenTieEvalDerivCurve2.
+From NV Require Import Proofs.GenTieEvalDerivSurf Proofs.GenTieEvalDerivSurfRat Proofs.GenTieEvalDerivSurf2.
+
+From NV Require Import Model.Weights Gen.Compatibility Proofs.GenTieCompat.
+
+(* [G] compatibility.combine_ctrlpts_weights with explicit weights: total (zip truncates) *)
+Theorem C09_gen_combine_ctrlpts_weights_R : forall (P : list (list R)) (W : list R),
+  Compatibility.combine_ctrlpts_weights Rops P W = GOk (combine_cw Rops P W).
+Proof. exact combine_ctrlpts_weights_tie_R. Qed.
+Print Assumptions C09_gen_combine_ctrlpts_weights_R.
+Theorem C09_gen_combine_ctrlpts_weights_Q : forall (P : list (list Q)) (W : list Q),
+  Compatibility.combine_ctrlpts_weights Qops P W = GOk (combine_cw Qops P W).
+Proof. exact combine_ctrlpts_weights_tie_Q. Qed.
+Print Assumptions C09_gen_combine_ctrlpts_weights_Q.
+
+(* [G] compatibility.combine_ctrlpts_weights(ctrlpts) (weights=None, the default): unit weights = Weights.to_rational *)
+Theorem C09_gen_combine_ctrlpts_weights_none_R : forall (P : list (list R)),
+  Compatibility.combine_ctrlpts_weights__weights_none Rops P = GOk (combine_cw Rops P (ones Rops (length P))).
+Proof. exact combine_ctrlpts_weights_none_tie_R. Qed.
+Print Assumptions C09_gen_combine_ctrlpts_weights_none_R.
+Theorem C09_gen_combine_ctrlpts_weights_none_Q : forall (P : list (list Q)),
+  Compatibility.combine_ctrlpts_weights__weights_none Qops P = GOk (combine_cw Qops P (ones Qops (length P))).
+Proof. exact combine_ctrlpts_weights_none_tie_Q. Qed.
+Print Assumptions C09_gen_combine_ctrlpts_weights_none_Q.
+
+(* [G] compatibility.separate_ctrlpts_weights: ALL inputs; the result [ctrlpts, weights] is a pair *)
+Theorem C09_gen_separate_ctrlpts_weights_R : forall (Pw : list (list R)),
+  Compatibility.separate_ctrlpts_weights Rops Pw =
+  res_to_gres (fun x => x) ValueError (first_err (sep_pt_ok Rops) div_err Pw) (Weights.separate_res Rops Pw).
+Proof. exact separate_ctrlpts_weights_tie_R. Qed.
+Print Assumptions C09_gen_separate_ctrlpts_weights_R.
+Theorem C09_gen_separate_ctrlpts_weights_Q : forall (Pw : list (list Q)),
+  Compatibility.separate_ctrlpts_weights Qops Pw =
+  res_to_gres (fun x => x) ValueError (first_err (sep_pt_ok Qops) div_err Pw) (Weights.separate_res Qops Pw).
+Proof. exact separate_ctrlpts_weights_tie_Q. Qed.
+Print Assumptions C09_gen_separate_ctrlpts_weights_Q.
+
+(* [G] ... in the form used with Ok results *)
+Theorem C09_gen_separate_ctrlpts_weights_ok_R : forall (Pw : list (list R)) r,
+  Weights.separate_res Rops Pw = Ok r -> Compatibility.separate_ctrlpts_weights Rops Pw = GOk r.
+Proof. exact separate_ctrlpts_weights_ok_R. Qed.
+Print Assumptions C09_gen_separate_ctrlpts_weights_ok_R.
+Theorem C09_gen_separate_ctrlpts_weights_ok_Q : forall (Pw : list (list Q)) r,
+  Weights.separate_res Qops Pw = Ok r -> Compatibility.separate_ctrlpts_weights Qops Pw = GOk r.
+Proof. exact separate_ctrlpts_weights_ok_Q. Qed.
+Print Assumptions C09_gen_separate_ctrlpts_weights_ok_Q.
+
+(* [G] compatibility.generate_ctrlptsw: ALL inputs (IndexError <-> Crash: an empty point) *)
+Theorem C09_gen_generate_ctrlptsw_R : forall (P : list (list R)),
+  Compatibility.generate_ctrlptsw Rops P = res_to_gres (fun x => x) ValueError IndexError (Weights.generate_ctrlptsw Rops P).
+Proof. exact generate_ctrlptsw_tie_R. Qed.
+Print Assumptions C09_gen_generate_ctrlptsw_R.
+Theorem C09_gen_generate_ctrlptsw_Q : forall (P : list (list Q)),
+  Compatibility.generate_ctrlptsw Qops P = res_to_gres (fun x => x) ValueError IndexError (Weights.generate_ctrlptsw Qops P).
+Proof. exact generate_ctrlptsw_tie_Q. Qed.
+Print Assumptions C09_gen_generate_ctrlptsw_Q.
+
+(* [G] compatibility.generate_ctrlpts_weights: ALL inputs *)
+Theorem C09_gen_generate_ctrlpts_weights_R : forall (P : list (list R)),
+  Compatibility.generate_ctrlpts_weights Rops P =
+  res_to_gres (fun x => x) ValueError (first_err (div_ok Rops) div_err P) (Weights.generate_ctrlpts_weights Rops P).
+Proof. exact generate_ctrlpts_weights_tie_R. Qed.
+Print Assumptions C09_gen_generate_ctrlpts_weights_R.
+Theorem C09_gen_generate_ctrlpts_weights_Q : forall (P : list (list Q)),
+  Compatibility.generate_ctrlpts_weights Qops P =
+  res_to_gres (fun x => x) ValueError (first_err (div_ok Qops) div_err P) (Weights.generate_ctrlpts_weights Qops P).
+Proof. exact generate_ctrlpts_weights_tie_Q. Qed.
+Print Assumptions C09_gen_generate_ctrlpts_weights_Q.
+
+(* [G] compatibility.generate_ctrlptsw2d: ALL inputs *)
+Theorem C09_gen_generate_ctrlptsw2d_R : forall (G : list (list (list R))),
+  Compatibility.generate_ctrlptsw2d Rops G = res_to_gres (fun x => x) ValueError IndexError (Weights.generate_ctrlptsw2d Rops G).
+Proof. exact generate_ctrlptsw2d_tie_R. Qed.
+Print Assumptions C09_gen_generate_ctrlptsw2d_R.
+Theorem C09_gen_generate_ctrlptsw2d_Q : forall (G : list (list (list Q))),
+  Compatibility.generate_ctrlptsw2d Qops G = res_to_gres (fun x => x) ValueError IndexError (Weights.generate_ctrlptsw2d Qops G).
+Proof. exact generate_ctrlptsw2d_tie_Q. Qed.
+Print Assumptions C09_gen_generate_ctrlptsw2d_Q.
+
+(* [G] compatibility.generate_ctrlpts2d_weights: ALL inputs *)
+Theorem C09_gen_generate_ctrlpts2d_weights_R : forall (G : list (list (list R))),
+  Compatibility.generate_ctrlpts2d_weights Rops G =
+  res_to_gres (fun x => x) ValueError (first_err (forallb (div_ok Rops)) (row_err Rops) G) (Weights.generate_ctrlpts2d_weights Rops G).
+Proof. exact generate_ctrlpts2d_weights_tie_R. Qed.
+Print Assumptions C09_gen_generate_ctrlpts2d_weights_R.
+Theorem C09_gen_generate_ctrlpts2d_weights_Q : forall (G : list (list (list Q))),
+  Compatibility.generate_ctrlpts2d_weights Qops G =
+  res_to_gres (fun x => x) ValueError (first_err (forallb (div_ok Qops)) (row_err Qops) G) (Weights.generate_ctrlpts2d_weights Qops G).
+Proof. exact generate_ctrlpts2d_weights_tie_Q. Qed.
+Print Assumptions C09_gen_generate_ctrlpts2d_weights_Q.
+Example C09_gen_nonvacuous :
+  Compatibility.separate_ctrlpts_weights Qops [[1 # 2; 1; 3 # 2; 1 # 2]; [8; 10; 12; 2]]%Q = GOk ([[1; 2; 3]; [4; 5; 6]], [1 # 2; 2])%Q
+  /\ Weights.separate_res Qops [[1 # 2; 1; 3 # 2; 1 # 2]; [8; 10; 12; 2]]%Q = Ok ([[1; 2; 3]; [4; 5; 6]], [1 # 2; 2])%Q
+  /\ Compatibility.separate_ctrlpts_weights Qops [[1; 2; 1]; [3; 4; 0]]%Q = GErr ZeroDivisionError
+  /\ Weights.separate_res Qops [[1; 2; 1]; [3; 4; 0]]%Q = Crash.
+Proof. split; [|split; [|split]]; vm_compute; reflexivity. Qed.
+
